@@ -263,6 +263,17 @@ pub fn impl_(ctx: &Context, input: &DeriveInput) -> TokenStream {
                     #tag_ident::#ident.emplace_unchecked(__flatty_bytes)?;
                 };
                 let body = collect_fields(&var.fields, get_item);
+                // Check that the variant fits before anything (the tag included) is written.
+                let size_check = if !var.fields.is_empty() {
+                    let type_list = type_list(var.fields.iter());
+                    quote! {
+                        iter::type_list!(#type_list)
+                            .check_align_and_min_size(__flatty_bytes.get_unchecked(__flatty_offset..))
+                            .map_err(|e| e.offset(__flatty_offset))?;
+                    }
+                } else {
+                    quote! {}
+                };
                 let pat_body = var
                     .fields
                     .iter()
@@ -277,8 +288,9 @@ pub fn impl_(ctx: &Context, input: &DeriveInput) -> TokenStream {
                 quote! {
                     #accum
                     #init_ident::#ident #pat => {
-                        #set_tag
                         let __flatty_offset = <#self_ident<#self_args>>::DATA_OFFSET;
+                        #size_check
+                        #set_tag
                         let __flatty_bytes = __flatty_bytes.get_unchecked_mut(__flatty_offset..);
                         #body
                     }
